@@ -156,7 +156,7 @@ func c02(r *core.Report) {
 	// ---- C02-REPLAY
 	r.Rule("C02-REPLAY", "application data is returned only after decryption succeeded and the replay filter accepted that message's counter", 3)
 	{
-		fn := sessDeliver
+		fn := sessionDataFn(p, sessDeliver, "Decrypt")
 		var dec, val *ssa.Call
 		for _, in := range core.AllInstrs(fn) {
 			c, ok := in.(*ssa.Call)
@@ -266,7 +266,7 @@ func c02(r *core.Report) {
 		okW := true
 		for _, f := range p.ModFuncs {
 			for _, st := range core.StoresToField(f, nonceF) {
-				if f != readHandshake && f != sessDeliver {
+				if f != readHandshake && f != sessDeliver && f != sessionDataFn(p, sessDeliver, "Decrypt") {
 					okW = false
 					r.Violation("C02-COUNTER-ALLOC", core.FnName(f)+" stores nonce", p.Pos(st.Pos()), "the outbound counter is assigned outside the handshake transitions: a reset re-uses counters under the same key")
 				}
@@ -420,4 +420,53 @@ func paramUses(prm *ssa.Parameter) []ssa.Instruction {
 		uses = append(uses, ref)
 	}
 	return uses
+}
+
+// sessionDataFn: the function in which a Session entry point uses the AEAD: the entry point itself, or the one
+// method of the same receiver it calls directly that contains the cipher call (the data branch split off into a
+// helper that only the entry point calls).
+func sessionDataFn(p *core.Prog, entry *ssa.Function, method string) *ssa.Function {
+	has := func(fn *ssa.Function) bool {
+		for _, in := range core.AllInstrs(fn) {
+			if c, ok := in.(*ssa.Call); ok && isCipherCall(c.Common(), method) {
+				return true
+			}
+		}
+		return false
+	}
+	if entry == nil || has(entry) {
+		return entry
+	}
+	var found *ssa.Function
+	for _, in := range core.AllInstrs(entry) {
+		c, ok := in.(*ssa.Call)
+		if !ok {
+			continue
+		}
+		g := core.StaticCallee(c.Common())
+		if g == nil || !p.InModule(g) || g.Blocks == nil || g.Signature.Recv() == nil || entry.Signature.Recv() == nil {
+			continue
+		}
+		if g.Signature.Recv().Type().String() != entry.Signature.Recv().Type().String() || !has(g) {
+			continue
+		}
+		// only the entry point may call it
+		only := true
+		for _, f := range p.ModFuncs {
+			if f == entry {
+				continue
+			}
+			for _, ci := range core.CallsToFn(f, g) {
+				_ = ci
+				only = false
+			}
+		}
+		if only {
+			found = g
+		}
+	}
+	if found != nil {
+		return found
+	}
+	return entry
 }
